@@ -129,6 +129,7 @@ OBLIGATIONS = [
     native("n_c13_bvh_equiv", ["C13", "C12"], "C13.bvh.equiv", "BVH::build / BVH::intersects / build_from_node_list / PreorderIter", BV + "n_c13_bvh_equiv", crash=True, timeout=120),
     native("n_c13_bvh_many", ["C13", "C14"], "C13.bvh.many", "BVH::build / partition_elements_by_centroid", BV + "n_c13_bvh_many", crash=True, timeout=120),
     native("n_c13_partition", ["C13"], "C13.partition", "BVH::partition_elements_by_centroid (contract P assumed by the Verus unit)", BV + "n_c13_partition"),
+    native("n_c13_partition_identical", ["C13"], "C13.partition.identical", "BVH::partition_elements_by_centroid (contract P assumed by the Verus unit)", BV + "n_c13_partition_identical"),
     native("n_c13_point_in_poly", ["C13"], "C13.pip", "raytracing::ray::point_in_poly", RY + "n_c13_point_in_poly"),
     native("n_c13_ray_polygon", ["C13"], "C13.ray.poly", "Ray::intersects_with_data", RY + "n_c13_ray_polygon"),
     native("n_c13_ray_posed", ["C13"], "C13.ray.posed", "impl Intersectable for WallGeom / WallGeom::to_global_coords_matrix", EN + "n_c13_ray_posed"),
@@ -137,6 +138,7 @@ OBLIGATIONS = [
     native("n_c13_setback", ["C13", "C12"], "C13.setback", "Window::shades_for_setback", EN + "n_c13_setback"),
     native("n_c13_aabb_slab", ["C13"], "C13.aabb.slab", "AABB::intersects", EN + "n_c13_aabb_slab"),
     native("n_c12_sunlit", ["C12", "C14"], "C12.sunlit", "Model::sunlit_fraction / collect_occluders / ray_origins_for_window", EN + "n_c12_sunlit"),
+    native("n_c12_turned_scene", ["C12"], "C12.turned", "Model::sunlit_fraction / collect_occluders / ray_origins_for_window on scenes oblique to the axes", EN + "n_c12_turned_scene"),
     native("n_c12_ray_origins", ["C12"], "C12.ray_origins", "Model::ray_origins_for_window", EN + "n_c12_ray_origins"),
     native("n_c12_occluder_set", ["C12"], "C12.occluder_set", "Model::collect_occluders / windows_setback_shades", EN + "n_c12_occluder_set"),
     native("n_c12_unobstructed_orientations", ["C12"], "C12.fshobst.orientations", "Model::compute_fshobst / ray_dir_to_sun / WallGeom::normal", EN + "n_c12_unobstructed_orientations"),
@@ -149,8 +151,10 @@ OBLIGATIONS = [
     native("n_c02_protections", ["C02"], "C02.protections", "windows_and_shades_from_bdl (ids of the overhang / fin shades generated from window attributes)", CV + "n_c02_protections"),
     native("n_c02_value_edits", ["C02"], "C02.value_edits", "hulc::ctehexml::parse_with_catalog + Model::try_from (cons_from_bdl purge of unused glazings / frames / materials) on projects with one rewritten number", CV + "n_c02_value_edits", timeout=900, timeout_thorough=6000, sampled="quick"),
     native("n_c02_broken_refs", ["C02"], "C02.broken", "hulc::ctehexml::parse_with_catalog + Model::try_from on projects with one dangling name", CV + "n_c02_broken_refs"),
+    native("n_c02_broken_sites", ["C02"], "C02.broken_sites", "hulc::ctehexml::parse_with_catalog + Model::try_from on projects with one written reference renamed", CV + "n_c02_broken_sites", timeout=900),
     native("n_c05_convert_repeat", ["C05"], "C05.convert", "hulc::ctehexml::parse_with_catalog + Model::try_from + Model::as_json (uuid_from_obj ids, collection order)", CV + "n_c05_convert_repeat", timeout=600, sampled="always"),
     native("n_c05_ids_local", ["C05"], "C05.ids", "bemodel::utils::uuid_from_obj / IdMaps::new (ids from the element's own definition)", CV + "n_c05_ids_local", timeout=600),
+    native("n_c05_ids_namesake", ["C05"], "C05.namesake", "IdMaps::new (one name -> id table per element kind) on projects where elements of different kinds share a name", CV + "n_c05_ids_namesake", timeout=900),
     native("n_c05_reference_models", ["C05"], "C05.reference", "hulc::ctehexml::parse_with_catalog + Model::try_from against bemodel/tests/data/*.json", CV + "n_c05_reference_models"),
     native("n_c05_indicators_history", ["C05"], "C05.indicators", "Model::energy_indicators (global climate / radiation tables behind Mutex / lazy statics)", CV + "n_c05_indicators_history", timeout=900, sampled="always"),
     native("n_c01_export_tool", ["C01"], "C01.export", "hulc2model::cli::cli_main (the built hulc2model binary), thor main (the built thor binary) against hulc2model::collect_hulc_data / Model::try_from", "verif_hulc2model::n::n_c01_export_tool", pkg="hulc2model", bins=True, timeout=900),
@@ -193,11 +197,11 @@ OBLIGATIONS = [
 ]
 
 PROPERTIES = {
-    "C18": {"level": "exploration", "rule": "C18.blocks: descriptions generated from the description number by a fixed LCG (200 quick / 2000 thorough - a sample of an unbounded space) x all 864 layouts; C18.relayout / typed / results: every shipped file x every listed layout or rewrite (complete); a case is non-trivial when the parser returned data (distinct keys: description or file, size, layout / rewrite)"},
+    "C18": {"level": "exploration", "rule": "C18.blocks: descriptions generated from the description number by a fixed LCG (200 quick / 2000 thorough - a sample of an unbounded space) x all 1152 layouts; C18.relayout / typed / results: every shipped file x every listed layout or rewrite (complete); a case is non-trivial when the parser returned data (distinct keys: description or file, size, layout / rewrite)"},
     "C01": {"level": "exploration", "rule": "every shipped project directory x {default, --use-extra} x {hulc2model, thor -o} plus three directories without project, enumerated completely (45 process runs); a case is non-trivial when a binary was run and compared with the library"},
     "C19": {"level": "fault_enumeration", "rule": "every shipped file x every line of the tier's slice (quick: every 8th / 20th / 4th / 6th line offset by VERIF_SEED; thorough: every line) x 11 kinds of single-line damage, enumerated by choice vector; an edit that does not apply to the line is skipped and not counted as non-trivial; distinct_nontrivial counts distinct (file kind, damage kind, outcome) classes, not cases"},
     "C05": {"level": "exploration", "rule": "every shipped project / model x the listed repetitions, twins and variants, enumerated completely; thread interleavings and process runs are sampled by running (16 threads, one fresh process per case), not explored; a case is non-trivial when a conversion or an indicator computation was compared"},
-    "C02": {"level": "exploration", "rule": "every shipped project / legacy file; every referenced definition of every project renamed (two ways) or removed; the first number of every line of the tier's slice (quick: every 6th line; thorough: every line) rewritten to 5 values; a case is non-trivial when the conversion ran to a model or to an error (distinct keys: project, block kind, outcome)"},
+    "C02": {"level": "exploration", "rule": "every shipped project / legacy file; every referenced definition of every project renamed (two ways) or removed; every written link reference renamed; the first number of every line of the tier's slice (quick: every 6th line; thorough: every line) rewritten to 5 values; a case is non-trivial when the conversion ran to a model or to an error (distinct keys: project, block kind, outcome)"},
     "C04": {"level": "exploration"},
     "C03": {"level": "proof", "undecided_clauses": ["global positions within 1 cm, outward normals, shade corner points, rotation of the whole building: all run through Rotation3/Rotation2 (sin/cos) - no contract within reach decides them"]},
     "C06": {"level": "proof", "undecided_clauses": ["numeric value of the EN ISO 13370 slab and basement-wall formulas (ln): only panic-freedom and the not-buried identities are proved; values are checked by the bounded obligation C06.ground"]},
@@ -220,8 +224,8 @@ NOT_APPLICABLE = [
 
 _TB = "Trusted: rustc, Kani 0.68 + CBMC 6.11 (bit-precise IEEE-754), Verus + Z3, the line-adding injector / verbatim extractor, std collections, nalgebra, uuid. "
 MANIFEST_TEXT = {
-    "C18": {"technique": "contract on build_blocks / bdl::Data::new / kyg::parse / tbl::parse: (a) documents printed from generated abstract descriptions are recovered exactly (own printer, 864 layouts), (b) re-printing a shipped file in another layout does not change the typed data, (c) every typed element agrees with the attribute values of its own block; evaluated on the real parsers (bounded stand-in: neither verifier reasons about str code)",
-            "text": "Bounded: C18.blocks - 200 (thorough 2000) generated descriptions of 1..40 blocks of 28 kinds with 1..6 attributes (number, bare word, quoted text with blanks / commas / accents, name list, number list) printed in 864 layouts (LF / CRLF, comments and blank lines, indentation and trailing blanks, attribute order, 3 number formats, quoted words, 3 list layouts incl. ')' on its own line, legacy preamble): name, type, parent and every attribute value of every block. C18.relayout - the BDL text of the 12 projects and 56 legacy files re-printed line by line in 12 (thorough 432) layouts gives the same bdl::Data. C18.typed - every window, wall, space + polygon, material, layer set, glazing, frame, window construction, rectangular shade and thermal bridge of the 68 files against the values written in its block, with the documented legacy defaults. C18.kyg / C18.tbl - either decimal separator, blanks, line ends. Not covered: blocks without attributes, other spacing around '=', the old KyG column layout.",
+    "C18": {"technique": "contract on build_blocks / bdl::Data::new / kyg::parse / tbl::parse: (a) documents printed from generated abstract descriptions are recovered exactly (own printer, 1152 layouts), (b) re-printing a shipped file in another layout does not change the typed data, (c) every typed element agrees with the attribute values of its own block; evaluated on the real parsers (bounded stand-in: neither verifier reasons about str code)",
+            "text": "Bounded: C18.blocks - 200 (thorough 2000) generated descriptions of 1..40 blocks of 28 kinds with 1..6 attributes (number, bare word, quoted text with blanks / commas / accents, name list, number list) printed in 1152 layouts (LF / CRLF, comments and blank lines, indentation and trailing blanks, attribute order, 4 number formats incl. 1.5E+03, quoted words, 3 list layouts incl. ')' on its own line, legacy preamble): name, type, parent and every attribute value of every block. C18.relayout - the BDL text of the 12 projects and 56 legacy files re-printed line by line in 12 (thorough 576) layouts gives the same bdl::Data. C18.typed - every window, wall, space + polygon, material, layer set, glazing, frame, window construction, rectangular shade and thermal bridge of the 68 files against the values written in its block, with the documented legacy defaults. C18.kyg / C18.tbl - either decimal separator, blanks, line ends. Not covered: blocks without attributes, other spacing around '=', the old KyG column layout.",
             "note": "The typed oracle reads the written values through the generic block parser, whose own recovery is what C18.blocks checks against the printed description; the printer emits only the layouts listed. " + _TB},
     "C01": {"technique": "contract on cli_main / thor main (exit status and standard output as postcondition), observed by running the real binaries built from the scratch copy and comparing with collect_hulc_data / Model::try_from called in-process (bounded stand-in; no verifier here models process I/O)",
             "text": "Bounded: the hulc2model binary on the 12 shipped project directories x {default, --use-extra} (also given with a trailing slash and as a relative path) exits 0 and its standard output is exactly one JSON document (serde_json rejects any other text around it) that loads as the model the library yields (compared with the library's model itself); on an empty directory, a directory without project, a missing one and two directories whose project the library rejects (file cut in half, broken reference) it exits non-zero and writes no JSON; thor -o writes byte-identical library JSON for the 12 project files, into a new file and over an existing longer one. About 130 process runs per check; nothing is discharged deductively.",
@@ -230,13 +234,13 @@ MANIFEST_TEXT = {
             "text": "Bounded: 8 kinds of single-line damage (line deleted / duplicated, truncation, number -> text / 1e39 / -7, block removed, reference renamed) applied to every 8th line of the 12 .ctehexml projects, every 20th line of the 56 legacy .cte files, every 4th line of the KyG / tbl files and every 6th line of the result files of two projects read through collect_hulc_data (quick, offset by VERIF_SEED); thorough applies them to every line (2.7 million damaged files). Each crash site is its own obligation clause; the crash sites in the unfinished systems parser are listed as known findings, every other site is a violation.",
             "note": "A crash is identified by source file + normalised panic message, so two unwrap() sites of one file with the same message share an identity. " + _TB},
     "C02": {"technique": "contract on Model::try_from(&CtehexmlData) written from the statement (result is a closed model with unique ids, or Err - never a panic, never a silently dropped link), evaluated on the natively compiled real parser + converter over the shipped corpus and every single renamed / removed definition (bounded stand-in)",
-            "text": "Bounded: every shipped project (12 .ctehexml, 56 legacy .cte; 62 convert) yields a model whose 15 id collections are duplicate- and nil-free and whose every listed link resolves (own oracle, plus Model::check silent); every referenced definition of every shipped project renamed (two ways) or removed, one at a time (7458 edited projects): the outcome is an error, or a closed model that has lost none of the optional links of the intact project; the first number of every 6th line (thorough: every line, 229 000 projects) rewritten to -7 / 0 / 100 / 1 / 1e39, and fins / overhangs (incl. symmetric fins) written on every window: still closed - ids of generated shades included - or an error. No obligation is discharged deductively: the converter is String-keyed BTreeMap lookups over the parser's data and md5-of-Debug-text ids, beyond Kani (symbolic Data infeasible) and Verus (iterator / str code).",
+            "text": "Bounded: every shipped project (12 .ctehexml, 56 legacy .cte; 62 convert) yields a model whose 15 id collections are duplicate- and nil-free and whose every listed link resolves (own oracle, plus Model::check silent); every referenced definition of every shipped project renamed (two ways) or removed, one at a time (7458 edited projects): the outcome is an error, or a closed model that has lost none of the optional links of the intact project; every place where a link of the statement's list is written renamed to an undefined name, one at a time (4 179 edited projects): an error whenever the block holding it is part of the intact model (its last definition, not replaced by a catalogue entry, link present in the intact model); the first number of every 6th line (thorough: every line, 229 000 projects) rewritten to -7 / 0 / 100 / 1 / 1e39, and fins / overhangs (incl. symmetric fins) written on every window: still closed - ids of generated shades included - or an error. No obligation is discharged deductively: the converter is String-keyed BTreeMap lookups over the parser's data and md5-of-Debug-text ids, beyond Kani (symbolic Data infeasible) and Verus (iterator / str code).",
             "note": "Exhaustive only over the shipped corpus and its single-definition edits; uniqueness of md5-derived ids is observed, not proved. " + _TB},
     "C04": {"technique": "Kani proof of the serde helper pairs (a value is skipped only if it is the value the default helper gives back, every f32 / bool) + contract on the pair Model::as_json / Model::from_json (from_json(as_json(m)) == m in every field, as_json idempotent, shipped files re-serialise to the same JSON value), enumerated on the real serde code over a model with every element kind and all single / pairs of 34 optional-or-defaulted field flips (bounded stand-in)",
             "text": "Bounded: a generated model carrying every collection, both material variants, overrides and the 'extra' block, with none / each one / each pair of 34 optional or defaulted fields flipped between absent-or-default and present-and-different (596 distinct models): loading back the serialised text gives a model equal in every field (Debug text of the whole model), and serialising again gives the identical text. The two extreme models with one value of their JSON text rewritten (every number -> 0 / 1 / negated, string -> \"\", flag flipped, key removed, list emptied: 758 models that still load) round-trip as well. The 7 shipped model files load and re-serialise to the same JSON value (numbers compared as f32), no key dropped or added. Deductive part: multiplier_is_1 / default_1, is_true / default_true and is_default agree for every f32 and bool (Kani). Which field carries which pair lives in serde derive attributes, and number formatting in serde_json: neither verifier can read those, so the rest is bounded.",
             "note": "Equality is judged on the Debug rendering (covers every field that derives Debug - all model types do). " + _TB},
     "C05": {"technique": "contracts on Model::try_from + as_json (a function of the project text only) and Model::energy_indicators (a function of the model only), evaluated on the real code by repetition, a fresh process, 16 threads and all ordered pairs of histories (bounded stand-in); no verifier here reasons about threads or processes",
-            "text": "Bounded: each of the 12 shipped projects converts to byte-identical JSON twice in one process, in a fresh process and on 16 threads at once; adding an unrelated library definition (14 block kinds x 3 positions x 12 projects) changes no existing id; the 6 (project, reference model) pairs of the Makefile convert exactly to the shipped models; indicators of each of the 7 shipped models are the same JSON value alone, after any other model, and on 16 threads. Key order of map-typed results is not compared (not a value).",
+            "text": "Bounded: each of the 12 shipped projects converts to byte-identical JSON twice in one process, in a fresh process and on 16 threads at once; adding an unrelated library definition (14 block kinds x 3 positions x 12 projects) changes no existing id, nor does a definition of one kind under the name of an element of another kind (10 kinds pairwise, before / after the namesake: ids kept and no id shared); the 6 (project, reference model) pairs of the Makefile convert exactly to the shipped models; indicators of each of the 7 shipped models are the same JSON value alone, after any other model, and on 16 threads. Key order of map-typed results is not compared (not a value).",
             "note": "Concurrency is sampled by running, not explored: a race that needs a particular interleaving can be missed. " + _TB},
     "C03": {"technique": "Kani proof harnesses on the real angle-convention functions (full float domain) and Polygon::mirror_y (<=5 vertices)",
             "text": "Narrow claim: only the angle-convention leaves of the conversion are decided - orientation_bdl_to_52016 lies in [-180,180] and is congruent to 180-a (mod 360) for every float in [-1080,1080], turning the building by d shifts every converted azimuth by -d, mirror_y keeps vertex 0 / reverses the rest / negates y. Positions, normals and rotations (trigonometry) are listed as undecided in the evidence.",
